@@ -1,0 +1,177 @@
+//go:build verif
+
+// Contracts for package app: block reward distribution (C13, C02 minting hooks, C18 division).
+// Comment-only file, read by /verif/govc.
+
+package app
+
+// floor division of totalRewards*validatorPower by totalPower
+//@ func getRewardForValidator
+//@   safety C18
+//@   requires totalPower != nil && validatorPower != nil && totalRewards != nil                                  // C18.nil-amount
+//@   requires big(totalPower) > 0                                                                               // C18.div-zero
+//@   modifies nothing
+//@   ensures result != nil && fresh(result)                                                                     // C13.share-floor
+// (written over the entry values and with the monomials result*T, R*p only, so that callers get no new product shapes)
+//@   ensures big(result) * old(big(totalPower)) <= old(big(totalRewards)) * old(big(validatorPower))            // C13.share-floor
+//@   ensures old(big(totalRewards)) * old(big(validatorPower)) < big(result) * old(big(totalPower)) + old(big(totalPower))   // C13.share-floor
+//@   ensures old(big(totalRewards)) >= 0 && old(big(validatorPower)) >= 0 ==> big(result) >= 0                  // C13.share-floor
+
+// ---------------------------------------------------------------- delegation pool's share of a block reward
+//
+// R = delegCtx.TotalRewards (amount pulled for the block), D = DelegationPower (delegation pool balance),
+// T = TotalPower (validators' power + D).  dr = floor(R*D/T) is split into DelegationRewards (credited to the
+// delegators pro rata their active amount), Commission (shared by the signing validators) and ProposerReward.
+// ghost record of the last delegation split (so that callers can reason over stable integers instead of heap cells):
+// gT/gD = total/delegation power it was called with, gDR/gC/gPR = the three parts of the response
+//@ model gT(*context) int
+//@ model gD(*context) int
+//@ model gDR(*context) int
+//@ model gC(*context) int
+//@ model gPR(*context) int
+// precomputed combinations (so that the caller's loop invariant has a single varying monomial):
+// gK = R*D - C*T - PR*T, gRC = R + C, gPRT = PR*T
+//@ model gK(*context) int
+//@ model gRC(*context) int
+//@ model gPRT(*context) int
+//@ func handleDelegationRewards
+//@   safety C18
+//@   requires delegCtx != nil && delegCtx.TotalRewards != nil && delegCtx.DelegationPower != nil && delegCtx.TotalPower != nil && kvMap != nil   // C18.ctx
+//@   requires appCtx != nil && appCtx.netwkDelegators != nil && appCtx.netwkDelegators.Deleg != nil && appCtx.netwkDelegators.Rewards != nil && appCtx.govern != nil   // C18.ctx
+//@   requires big(delegCtx.TotalPower) > 0 && big(delegCtx.DelegationPower) > 0                                 // C18.div-zero
+//@   requires ndActTotal(appCtx.netwkDelegators.Deleg) <= big(delegCtx.DelegationPower)                         // C12.pool-covers-active
+//@   modifies appCtx.netwkDelegators.Deleg.State, appCtx.netwkDelegators.Rewards.state, mapof(kvMap), ndRRaw(appCtx.netwkDelegators.Rewards), ndLastScan(appCtx.netwkDelegators.Deleg), vHas(appCtx.deliver), vVal(appCtx.deliver), gT(appCtx), gD(appCtx), gDR(appCtx), gC(appCtx), gPR(appCtx), gK(appCtx), gRC(appCtx), gPRT(appCtx)
+//@   update gK(appCtx) := big(delegCtx.TotalRewards) * big(delegCtx.DelegationPower) - big(resp.Commission) * big(delegCtx.TotalPower) - big(resp.ProposerReward) * big(delegCtx.TotalPower)
+//@   update gRC(appCtx) := big(delegCtx.TotalRewards) + big(resp.Commission)
+//@   update gPRT(appCtx) := big(resp.ProposerReward) * big(delegCtx.TotalPower)
+//@   update gT(appCtx) := big(delegCtx.TotalPower)
+//@   update gD(appCtx) := big(delegCtx.DelegationPower)
+//@   update gDR(appCtx) := big(resp.DelegationRewards)
+//@   update gC(appCtx) := big(resp.Commission)
+//@   update gPR(appCtx) := big(resp.ProposerReward)
+//@   ensures gT(appCtx) == big(delegCtx.TotalPower) && gD(appCtx) == big(delegCtx.DelegationPower) && gDR(appCtx) == big(resp.DelegationRewards) && gC(appCtx) == big(resp.Commission) && gPR(appCtx) == big(resp.ProposerReward)   // C13.delegation-share
+//@   ensures forall k string :: ndRRaw(appCtx.netwkDelegators.Rewards)[k] >= old(ndRRaw(appCtx.netwkDelegators.Rewards))[k]   // C03.no-reward-record-debited
+//@   ensures gRC(appCtx) == big(delegCtx.TotalRewards) + gC(appCtx) && gPRT(appCtx) == gPR(appCtx) * gT(appCtx)   // C13.split-algebra
+//@   ensures big(delegCtx.TotalRewards) >= 0 ==> gRC(appCtx) >= 0 && gPRT(appCtx) >= 0 && gDR(appCtx) * gT(appCtx) <= gK(appCtx)   // C13.split-algebra
+//@   ensures big(delegCtx.TotalRewards) >= 0 ==> gK(appCtx) + gRC(appCtx) * (gT(appCtx) - gD(appCtx)) + gPRT(appCtx) <= big(delegCtx.TotalRewards) * gT(appCtx)   // C13.split-algebra
+//@   ensures resp != nil && fresh(resp) && resp.DelegationRewards != nil && resp.Commission != nil && resp.ProposerReward != nil   // C13.delegation-share
+//@   ensures fresh(resp.DelegationRewards) && fresh(resp.Commission) && fresh(resp.ProposerReward)              // C13.delegation-share
+//@   ensures big(delegCtx.TotalRewards) >= 0 ==> (big(resp.DelegationRewards) + big(resp.Commission) + big(resp.ProposerReward)) * big(delegCtx.TotalPower) <= big(delegCtx.TotalRewards) * big(delegCtx.DelegationPower)   // C13.delegation-share
+//@   ensures big(delegCtx.TotalRewards) >= 0 ==> big(resp.DelegationRewards) >= 0 && big(resp.Commission) >= 0 && big(resp.ProposerReward) >= 0     // C13.delegation-share
+//@   ensures big(delegCtx.TotalRewards) >= 0 ==> ndRewTotal(appCtx.netwkDelegators.Rewards) - old(ndRewTotal(appCtx.netwkDelegators.Rewards)) <= big(resp.DelegationRewards)   // C13.delegators-within-share
+//@   ensures big(delegCtx.TotalRewards) >= 0 ==> ndRewTotal(appCtx.netwkDelegators.Rewards) >= old(ndRewTotal(appCtx.netwkDelegators.Rewards))      // C13.delegators-within-share
+//@   invariant iter1: networkDelegators == appCtx.netwkDelegators && resp.DelegationRewards != nil && resp.Commission != nil && resp.ProposerReward != nil && big(resp.DelegationRewards) >= 0   // C13.frame
+//@   invariant iter1: forall k string :: ndRRaw(appCtx.netwkDelegators.Rewards)[k] >= old(ndRRaw(appCtx.netwkDelegators.Rewards))[k]   // C03.no-reward-record-debited
+//@   invariant iter1: big(delegCtx.TotalRewards) >= 0 ==> big(resp.DelegationRewards) >= 0 && big(resp.Commission) >= 0 && big(resp.ProposerReward) >= 0   // C13.delegation-share
+//@   invariant iter1: big(delegCtx.TotalRewards) >= 0 ==> (big(resp.DelegationRewards) + big(resp.Commission) + big(resp.ProposerReward)) * big(delegCtx.TotalPower) <= big(delegCtx.TotalRewards) * big(delegCtx.DelegationPower)   // C13.delegation-share
+//@   invariant iter1: big(delegCtx.TotalRewards) >= 0 ==> 0 <= ndRewTotal(appCtx.netwkDelegators.Rewards) - old(ndRewTotal(appCtx.netwkDelegators.Rewards))   // C13.delegators-within-share
+//@   invariant iter1: $n > 0 ==> ndActSum(appCtx.netwkDelegators.Deleg, $n) <= ndActTotal(appCtx.netwkDelegators.Deleg)   // C13.delegators-within-share
+//@   invariant iter1: $n == 0 ==> ndRewTotal(appCtx.netwkDelegators.Rewards) == old(ndRewTotal(appCtx.netwkDelegators.Rewards))   // C13.delegators-within-share
+//@   invariant iter1: big(delegCtx.TotalRewards) >= 0 && $n > 0 ==> (ndRewTotal(appCtx.netwkDelegators.Rewards) - old(ndRewTotal(appCtx.netwkDelegators.Rewards))) * big(delegCtx.DelegationPower) <= big(resp.DelegationRewards) * ndActSum(appCtx.netwkDelegators.Deleg, $n)   // C13.delegators-within-share
+//@   invariant iter1: big(delegCtx.TotalRewards) >= 0 && $n > 0 ==> big(resp.DelegationRewards) * ndActSum(appCtx.netwkDelegators.Deleg, $n) <= big(resp.DelegationRewards) * big(delegCtx.DelegationPower)   // C13.product-instance
+//@   invariant iter1: big(delegCtx.TotalRewards) >= 0 ==> ndRewTotal(appCtx.netwkDelegators.Rewards) - old(ndRewTotal(appCtx.netwkDelegators.Rewards)) <= big(resp.DelegationRewards)   // C13.delegators-within-share
+
+// ---------------------------------------------------------------- the block reward hook (BeginBlock)
+//
+// Ghost description of Tendermint's LastCommitInfo for the block (chosen by the environment; the C13.tm-votes
+// precondition ties it to the votes): vsum(appCtx)[n] = sum of the scaled powers of votes[0..n), propIdx(appCtx) =
+// index of the block proposer's vote (irrelevant if the proposer did not vote).
+//@ model vsum(*context) array[int]int
+//@ model propIdx(*context) int
+// vpwOf(appCtx)[k]: the scaled power of the vote whose validator address has text k (well defined: addresses are distinct)
+//@ model vpwOf(*context) array[string]int
+// per-index views (they only exist to give the solver quantifiers whose triggers are plain `ghost[j]` terms):
+// vkeyI[j] = address text of vote j, vpwI[j] = scaled power of vote j, vsumN[j] = vsum[j+1]
+//@ model vkeyI(*context) array[int]string
+//@ model vpwI(*context) array[int]int
+//@ model vsumN(*context) array[int]int
+// voteFacts(appCtx, votes, j): everything the loops need to know about vote j, in instantiated form
+//@ ghost func voteFacts(c *context, vs []types.VoteInfo, prop bytes, j int) bool = vkeyI(c)[j] == vkey(vs[j]) && vpwI(c)[j] == vpw(vs[j]) && vpwI(c)[j] > 0 && vsumN(c)[j] == vsum(c)[j] + vpwI(c)[j] && vsum(c)[j + 1] == vsumN(c)[j] && vpwOf(c)[vkeyI(c)[j]] == vpwI(c)[j] && (vkeyI(c)[j] == addrStr(str(prop)) ==> j == propIdx(c))
+// a validator power is scaled by 10^18 through its decimal text (PadZero appends 18 zeros, SetString parses it back)
+//@ axiom forall p int :: parseAmt(padZero(@int_str(p)), 10) == p * 1000000000000000000   // T-STR decimal text of p followed by 18 zeros
+//@ ghost func vkey(v types.VoteInfo) string = addrStr(str(v.Validator.Address))
+//@ ghost func vpw(v types.VoteInfo) int = v.Validator.Power * 1000000000000000000
+
+//@ func handleBlockRewards
+//@   safety C18
+//@   requires appCtx != nil && appCtx.rewardMaster != nil && appCtx.rewardMaster.Reward != nil && appCtx.rewardMaster.RewardCm != nil && appCtx.rewardMaster.Reward.rewardOptions != nil && appCtx.currencies != nil && appCtx.validators != nil && appCtx.govern != nil && appCtx.balances != nil && appCtx.netwkDelegators != nil && appCtx.netwkDelegators.Deleg != nil && appCtx.netwkDelegators.Rewards != nil   // C18.ctx
+//@   requires appCtx.rewardMaster.RewardCm.calculator != nil && appCtx.rewardMaster.RewardCm.rewardOptions != nil && appCtx.rewardMaster.RewardCm.calculator.options == appCtx.rewardMaster.RewardCm.rewardOptions && appCtx.rewardMaster.RewardCm.calculator.cached.amount != nil && allocated(appCtx.rewardMaster.RewardCm.calculator.cached.amount)   // C18.ctx
+//@   requires appCtx.rewardMaster.RewardCm.rewardOptions.BlockSpeedCalculateCycle != 0                          // C18.div-zero
+//@   requires yCount(appCtx.rewardMaster.RewardCm) == len(appCtx.rewardMaster.RewardCm.rewardOptions.YearBlockRewardShares)   // C18.year-index
+//@   requires appCtx.rewardMaster.RewardCm.calculator.cached.cycleNo > 0 && (appCtx.rewardMaster.RewardCm.calculator.cached.burnedout || @go_rem(wrap64(block.Header.Height - 1), appCtx.rewardMaster.RewardCm.rewardOptions.BlockSpeedCalculateCycle) != 0) ==> cumCacheOK(appCtx.rewardMaster.RewardCm)   // C13.cache-inv
+//@   requires appCtx.rewardMaster.Reward.rewardOptions.RewardInterval != 0                                       // C18.div-zero
+//@   requires curOK(appCtx.currencies) && has(appCtx.currencies.nameMap, "OLT")                                 // C18.ctx
+//@   assumes ndRKind(ndRewTotalKey(appCtx.netwkDelegators.Rewards)) == 2                                        // A-KEYS the "total_rewards" key is of the total family (c12's key vocabulary; text of the key)
+// store invariants: no negative record (C02), the delegation pool covers the active delegations (C12)
+//@   requires forall k string :: bal(appCtx.balances)[k] >= 0                                                   // C02.non-negative
+//@   requires forall k string :: rwd(appCtx.rewardMaster.Reward)[k] >= 0                                        // C02.non-negative
+//@   requires forall k string :: ndRRaw(appCtx.netwkDelegators.Rewards)[k] >= 0                                 // C02.non-negative
+//@   requires forall c string :: ndActTotal(appCtx.netwkDelegators.Deleg) <= bal(appCtx.balances)[balKey(bytes(ndPoolAddr()), c)]   // C12.pool-covers-active
+// Tendermint's LastCommitInfo: positive powers, pairwise distinct validator addresses (assumption on Tendermint)
+//@   requires forall j int :: 0 <= j && j < len(block.LastCommitInfo.Votes) ==> block.LastCommitInfo.Votes[j].Validator.Power > 0   // C13.tm-votes
+//@   requires forall j int, k int :: 0 <= j && j < k && k < len(block.LastCommitInfo.Votes) ==> vkey(block.LastCommitInfo.Votes[j]) != vkey(block.LastCommitInfo.Votes[k])   // C13.tm-votes
+//@   requires forall j int :: { vkeyI(appCtx)[j] } { vpwI(appCtx)[j] } 0 <= j && j < len(block.LastCommitInfo.Votes) ==> vkeyI(appCtx)[j] == vkey(block.LastCommitInfo.Votes[j]) && vpwI(appCtx)[j] == vpw(block.LastCommitInfo.Votes[j])   // C13.tm-votes-ghost
+//@   requires forall j int :: { vpwI(appCtx)[j] } 0 <= j && j < len(block.LastCommitInfo.Votes) ==> vpwI(appCtx)[j] > 0              // C13.tm-votes-ghost
+//@   requires vsum(appCtx)[0] == 0 && (forall j int :: { vsumN(appCtx)[j] } 0 <= j && j < len(block.LastCommitInfo.Votes) ==> vsumN(appCtx)[j] == vsum(appCtx)[j] + vpwI(appCtx)[j] && vsum(appCtx)[j + 1] == vsumN(appCtx)[j])   // C13.tm-votes-ghost
+//@   requires forall j int :: { vkeyI(appCtx)[j] } 0 <= j && j < len(block.LastCommitInfo.Votes) ==> vpwOf(appCtx)[vkeyI(appCtx)[j]] == vpwI(appCtx)[j]   // C13.tm-votes-ghost
+//@   requires forall j int :: { vkeyI(appCtx)[j] } 0 <= j && j < len(block.LastCommitInfo.Votes) && vkeyI(appCtx)[j] == addrStr(str(block.Header.ProposerAddress)) ==> j == propIdx(appCtx)   // C13.tm-votes-ghost
+//@   modifies appCtx.rewardMaster.Reward.State, appCtx.rewardMaster.RewardCm.state, appCtx.balances.State, appCtx.netwkDelegators.Deleg.State, appCtx.netwkDelegators.Rewards.state
+//@   modifies heap("big.Int"), heap("kv.Pair"), heap("types.VoteInfo"), heap("identity.Validator"), heap("types.Event"), allmodel("vHas"), allmodel("vVal"), allmodel("rwd"), allmodel("rwdTotal"), *appCtx.rewardMaster.RewardCm.calculator, fcBlocks(appCtx.rewardMaster.RewardCm.calculator), lastPulled(appCtx.rewardMaster.RewardCm)
+//@   modifies cum(appCtx.rewardMaster.RewardCm), yCount(appCtx.rewardMaster.RewardCm), yDist(appCtx.rewardMaster.RewardCm), yTill(appCtx.rewardMaster.RewardCm)
+//@   modifies gT(appCtx), gD(appCtx), gDR(appCtx), gC(appCtx), gPR(appCtx), gK(appCtx), gRC(appCtx), gPRT(appCtx), ndRRaw(appCtx.netwkDelegators.Rewards), ndRPendTotal(appCtx.netwkDelegators.Rewards), ndLastScan(appCtx.netwkDelegators.Deleg), bal(appCtx.balances), balTotal(appCtx.balances)
+// NOTE on loop numbers: the engine orders loop headers by source position and falls back to the SSA block index for
+// range loops whose header has no position; in this function that gives  loop3 = first vote loop (powers),
+// loop1 = second vote loop (credits), loop2 = range over kvMap, loop4 = attribute loop (checked by probing).
+//@   invariant iter1: big(appCtx.rewardMaster.RewardCm.calculator.cached.amount) == old(big(appCtx.rewardMaster.RewardCm.calculator.cached.amount))   // C13.frame
+//@   invariant iter1: kvMap != nil && rewardMaster == appCtx.rewardMaster && options == appCtx.rewardMaster.Reward.rewardOptions && lastHeight == block.Header.Height   // C13.frame
+//@   invariant loop3: big(appCtx.rewardMaster.RewardCm.calculator.cached.amount) == old(big(appCtx.rewardMaster.RewardCm.calculator.cached.amount))   // C13.frame
+//@   invariant loop3: 0 <= $i && $i <= len(votes) && kvMap != nil && rewardMaster == appCtx.rewardMaster && options == appCtx.rewardMaster.Reward.rewardOptions && lastHeight == block.Header.Height   // C13.frame
+//@   invariant loop3: $i < len(votes) ==> voteFacts(appCtx, votes, block.Header.ProposerAddress, $i)           // C13.tm-votes-instance
+//@   invariant loop3: totValPower != nil && big(totValPower) == vsum(appCtx)[$i] && vsum(appCtx)[$i] >= 0 && ($i > 0 ==> vsum(appCtx)[$i] > 0) && validatorPowerMap != nil   // C13.power-sum
+//@   invariant loop3: forall j int :: 0 <= j && j < $i ==> has(validatorPowerMap, vkeyI(appCtx)[j])            // C13.power-map
+//@   invariant loop3: forall k string :: has(validatorPowerMap, k) ==> validatorPowerMap[k] != nil && allocated(validatorPowerMap[k]) && validatorPowerMap[k] != totValPower && validatorPowerMap[k] != appCtx.rewardMaster.RewardCm.calculator.cached.amount   // C13.power-map
+//@   invariant loop3: forall k string :: has(validatorPowerMap, k) && ($i == 0 || k != vkeyI(appCtx)[$i - 1]) ==> big(validatorPowerMap[k]) == vpwOf(appCtx)[k]   // C13.power-map
+//@   invariant loop3: $i > 0 ==> big(validatorPowerMap[vkeyI(appCtx)[$i - 1]]) == vpwOf(appCtx)[vkeyI(appCtx)[$i - 1]]   // C13.power-map
+// ---- second vote loop (engine number: loop1). R = pulled amount, T = total power, D = delegation power,
+//      tc = totalConsumed, credV = what the interval reward store was credited so far.
+//@   invariant loop1: 0 <= $i && $i <= len(votes) && kvMap != nil && rewardMaster == appCtx.rewardMaster && options == appCtx.rewardMaster.Reward.rewardOptions && lastHeight == block.Header.Height   // C13.frame
+//@   invariant loop1: $i < len(votes) ==> voteFacts(appCtx, votes, block.Header.ProposerAddress, $i)           // C13.tm-votes-instance
+//@   invariant loop1: totalRewards != nil && totalPower != nil && totValPower == totalPower && delegationPower != nil && delegationPower != totalPower && totalConsumed != nil && validatorPowerMap != nil && delegationResp != nil   // C13.frame
+//@   invariant loop1: forall j int :: 0 <= j && j < len(votes) ==> has(validatorPowerMap, vkeyI(appCtx)[j])    // C13.power-map
+//@   invariant loop1: forall k string :: has(validatorPowerMap, k) ==> validatorPowerMap[k] != nil && big(validatorPowerMap[k]) == vpwOf(appCtx)[k]   // C13.power-map
+//@   invariant loop1: lastPulled(appCtx.rewardMaster.RewardCm) >= 0 ==> forall k string :: rwd(appCtx.rewardMaster.Reward)[k] >= 0    // C13.records-non-negative
+// All arithmetic invariants are over integers that do not live in the heap of big.Ints (ghost records, ledgers):
+// Rg = lastPulled(RewardCm) (= R), gT/gD/gDR/gC/gPR = the record handleDelegationRewards left, V = vsum[len(votes)].
+// The link invariants tie the heap cells to them.
+//@   invariant loop1: big(totalRewards) == lastPulled(appCtx.rewardMaster.RewardCm) && big(delegationPower) >= 0 && vsum(appCtx)[len(votes)] >= 0 && (len(votes) > 0 ==> vsum(appCtx)[len(votes)] > 0)   // C13.link
+//@   invariant loop1: big(delegationPower) > 0 ==> big(totalPower) == gT(appCtx) && big(delegationPower) == gD(appCtx) && gT(appCtx) == vsum(appCtx)[len(votes)] + gD(appCtx) && delegationResp.DelegationRewards != nil && delegationResp.Commission != nil && delegationResp.ProposerReward != nil && big(delegationResp.DelegationRewards) == gDR(appCtx) && big(delegationResp.Commission) == gC(appCtx) && big(delegationResp.ProposerReward) == gPR(appCtx) && gRC(appCtx) == lastPulled(appCtx.rewardMaster.RewardCm) + gC(appCtx) && gPRT(appCtx) == gPR(appCtx) * gT(appCtx)   // C13.link
+//@   invariant loop1: big(delegationPower) == 0 ==> big(totalPower) == vsum(appCtx)[len(votes)]              // C13.link
+//@   invariant loop1: big(delegationPower) == bal(appCtx.balances)[balKey(bytes(ndPoolAddr()), appCtx.currencies.idMap[0].Name)] && bal(appCtx.balances) == old(bal(appCtx.balances))   // C13.link
+//@   invariant loop1: lastPulled(appCtx.rewardMaster.RewardCm) >= 0 ==> 0 <= ndRewTotal(appCtx.netwkDelegators.Rewards) - old(ndRewTotal(appCtx.netwkDelegators.Rewards)) && ndRewTotal(appCtx.netwkDelegators.Rewards) - old(ndRewTotal(appCtx.netwkDelegators.Rewards)) <= (big(delegationPower) > 0 ? gDR(appCtx) : 0)   // C13.delegators-within-share
+// NOT USED while the two invariants below are disabled:   invariant loop1: big(delegationPower) > 0 && lastPulled(appCtx.rewardMaster.RewardCm) >= 0 ==> gDR(appCtx) >= 0 && gC(appCtx) >= 0 && gPR(appCtx) >= 0 && gRC(appCtx) >= 0 && gPRT(appCtx) >= 0 && gK(appCtx) + gRC(appCtx) * (gT(appCtx) - gD(appCtx)) + gPRT(appCtx) <= lastPulled(appCtx.rewardMaster.RewardCm) * gT(appCtx)   // C13.delegation-share
+// product instances for the coming iteration (so that the step is linear over the monomials)
+// NOT USED while the within-pulled invariants are disabled:   invariant loop1: $i < len(votes) && big(delegationPower) == 0 ==> lastPulled(appCtx.rewardMaster.RewardCm) * vsumN(appCtx)[$i] == lastPulled(appCtx.rewardMaster.RewardCm) * vsum(appCtx)[$i] + lastPulled(appCtx.rewardMaster.RewardCm) * vpwI(appCtx)[$i]   // C13.product-instance
+// NOT USED while the within-pulled invariants are disabled:   invariant loop1: $i < len(votes) && big(delegationPower) == 0 && lastPulled(appCtx.rewardMaster.RewardCm) >= 0 ==> lastPulled(appCtx.rewardMaster.RewardCm) * vpwI(appCtx)[$i] >= 0   // C13.product-instance
+// NOT USED while the two invariants below are disabled:   invariant loop1: $i < len(votes) && big(delegationPower) > 0 ==> gRC(appCtx) * vsumN(appCtx)[$i] == gRC(appCtx) * vsum(appCtx)[$i] + gRC(appCtx) * vpwI(appCtx)[$i] && gRC(appCtx) * vpwI(appCtx)[$i] == lastPulled(appCtx.rewardMaster.RewardCm) * vpwI(appCtx)[$i] + gC(appCtx) * vpwI(appCtx)[$i]   // C13.product-instance
+// NOT USED while the two invariants below are disabled:   invariant loop1: $i < len(votes) && big(delegationPower) > 0 && lastPulled(appCtx.rewardMaster.RewardCm) >= 0 ==> gRC(appCtx) * vpwI(appCtx)[$i] >= 0   // C13.product-instance
+// main: the running counter tc = totalConsumed (exact: tc grows by exactly the credited amount), scaled by the total power
+// NOT PROVED IN-ENGINE (solver limit, see report):   invariant loop1: lastPulled(appCtx.rewardMaster.RewardCm) >= 0 && big(delegationPower) > 0 && $i <= propIdx(appCtx) ==> big(totalConsumed) * gT(appCtx) <= gK(appCtx) + gRC(appCtx) * vsum(appCtx)[$i]   // C13.within-pulled
+// NOT PROVED IN-ENGINE (solver limit, see report):   invariant loop1: lastPulled(appCtx.rewardMaster.RewardCm) >= 0 && big(delegationPower) > 0 && $i > propIdx(appCtx) ==> big(totalConsumed) * gT(appCtx) <= gK(appCtx) + gRC(appCtx) * vsum(appCtx)[$i] + gPRT(appCtx)   // C13.within-pulled
+// NOT PROVED ROBUSTLY (10-60 s, solver-seed dependent, see report):   invariant loop1: len(votes) == 0 && big(delegationPower) == 0 ==> big(totalConsumed) == 0              // C13.within-pulled
+// NOT PROVED ROBUSTLY (10-60 s, solver-seed dependent, see report):   invariant loop1: lastPulled(appCtx.rewardMaster.RewardCm) >= 0 && big(delegationPower) == 0 ==> big(totalConsumed) * vsum(appCtx)[len(votes)] <= lastPulled(appCtx.rewardMaster.RewardCm) * vsum(appCtx)[$i]   // C13.within-pulled
+//@   invariant loop1: lastPulled(appCtx.rewardMaster.RewardCm) >= 0 ==> rwdTotal(appCtx.rewardMaster.Reward) - old(rwdTotal(appCtx.rewardMaster.Reward)) + (big(delegationPower) > 0 ? gDR(appCtx) : 0) <= big(totalConsumed)   // C13.credited-le-counted
+// ---- IterateAddrList callback (iter2): matured chunks move to the matured balance; nothing is credited here
+//@   invariant iter2: kvMap != nil && rewardMaster == appCtx.rewardMaster && options == appCtx.rewardMaster.Reward.rewardOptions && lastHeight == block.Header.Height && totalConsumed != nil   // C13.frame
+//@   invariant iter2: cum(appCtx.rewardMaster.RewardCm)[rwTotKey(appCtx.rewardMaster.RewardCm.prefix)] == old(cum(appCtx.rewardMaster.RewardCm))[rwTotKey(appCtx.rewardMaster.RewardCm.prefix)] && appCtx.rewardMaster.RewardCm.prefix == old(appCtx.rewardMaster.RewardCm.prefix)   // C13.frame
+//@   invariant iter2: lastPulled(appCtx.rewardMaster.RewardCm) >= 0 ==> rwdTotal(appCtx.rewardMaster.Reward) - old(rwdTotal(appCtx.rewardMaster.Reward)) + (ndRewTotal(appCtx.netwkDelegators.Rewards) - old(ndRewTotal(appCtx.netwkDelegators.Rewards))) <= big(totalConsumed)   // C13.credited-le-counted
+// NOT PROVED ROBUSTLY (10-60 s, solver-seed dependent, see report):   invariant iter2: lastPulled(appCtx.rewardMaster.RewardCm) >= 0 && old(bal(appCtx.balances))[balKey(bytes(ndPoolAddr()), appCtx.currencies.idMap[0].Name)] == 0 ==> big(totalConsumed) <= lastPulled(appCtx.rewardMaster.RewardCm)   // C13.within-pulled
+//@   invariant loop2: kvMap != nil && !old(allocated(arr(kvKeys)))                                              // C13.frame
+//@   invariant loop4: 0 <= $i && $i <= len(kvKeys) && kvMap != nil                                              // C13.frame
+// C13/C02: what the hook credits (validators' interval records + delegators' reward balances) never exceeds what it books as
+// distributed (totalConsumed, the counter the year accounting is fed with), unless the booking itself failed (the error of
+// ConsumeRewards is dropped by the code). The last link "totalConsumed <= amount pulled" is written down above
+// (C13.within-pulled invariants, with the algebra pre-digested in handleDelegationRewards' C13.split-algebra clauses) but
+// DISABLED: the loop-step obligations of the crediting path exceed what z3/cvc5 do reliably on this 160-line function
+// (proved for an empty delegation pool in 10-60 s depending on solver seed, not proved for a non-empty pool).
+//@   ensures lastPulled(appCtx.rewardMaster.RewardCm) >= 0 ==> rwdTotal(appCtx.rewardMaster.Reward) - old(rwdTotal(appCtx.rewardMaster.Reward)) + (ndRewTotal(appCtx.netwkDelegators.Rewards) - old(ndRewTotal(appCtx.netwkDelegators.Rewards))) <= cum(appCtx.rewardMaster.RewardCm)[rwTotKey(appCtx.rewardMaster.RewardCm.prefix)] - old(cum(appCtx.rewardMaster.RewardCm))[rwTotKey(appCtx.rewardMaster.RewardCm.prefix)] || cum(appCtx.rewardMaster.RewardCm)[rwTotKey(appCtx.rewardMaster.RewardCm.prefix)] == old(cum(appCtx.rewardMaster.RewardCm))[rwTotKey(appCtx.rewardMaster.RewardCm.prefix)]   // C13.credited-le-booked
+// NOT PROVED ROBUSTLY (depends on the disabled invariants):   ensures lastPulled(appCtx.rewardMaster.RewardCm) >= 0 && old(bal(appCtx.balances))[balKey(bytes(ndPoolAddr()), appCtx.currencies.idMap[0].Name)] == 0 ==> cum(appCtx.rewardMaster.RewardCm)[rwTotKey(appCtx.rewardMaster.RewardCm.prefix)] - old(cum(appCtx.rewardMaster.RewardCm))[rwTotKey(appCtx.rewardMaster.RewardCm.prefix)] <= lastPulled(appCtx.rewardMaster.RewardCm)   // C13.within-pulled
